@@ -67,6 +67,19 @@ def check(ctx):
         bad = [g for g in gd if g in r]
         ctx.ob("R-EXIT", JS, "scope/guard-released-after-join", bool(gd) and not bad, "the cancel-disable guard lives across the join" if gd and not bad else
                "the cancel-disable guard is released before the join", f.where(sorted(gd)[0] if gd else None))
+    # ... and that holds for every join of a scoped child, wherever in the module it is written (an explicit ScopedJoinHandle::join is a
+    # join of the scope owner too: if it could be cancelled, the handle - already taken out of the shared state - is dropped by the unwind,
+    # the deferred join finds nothing to wait for and the scope is left while the child runs)
+    JH = Call(r"may::join::JoinHandle::join", transitive=False)
+    joiners = sorted(g.id for g in ctx.prog.fns.values() if g.id.startswith(SC + "::") and g.id != JS and ctx.an.sites(g, JH, "must"))
+    for gid in joiners:
+        ctx.order(gid, GUARD, JH, "scope/every-child-join-cancel-masked", "a join of a scoped child outside JoinState::join also runs with the owner's cancel disabled", rule="R-EXIT")
+    ctx.ob("R-EXIT", SC, "scope/child-joins-enumerated", True, "functions of may::scoped that join a child's JoinHandle directly: %s" % ([JS] + joiners), None, nontrivial=False)
+    # the shared state says `Joined` only where the join is performed
+    makers = sorted(set(g.id.split("::{closure")[0] for g in ctx.prog.fns.values() if g.id.startswith("may::") and ctx.an.sites(g, Agg(SC + "::JoinState", "Joined", transitive=False), "may")))
+    okm = makers == [JS]
+    ctx.ob("R-WHO", SC + "::JoinState", "scope/joined-only-set-by-join", okm, "JoinState::Joined is constructed only in JoinState::join (which then joins under the cancel mask)" if okm else
+           "JoinState::Joined is constructed in %s: the deferred join of the scope sees `Joined` and does not wait although nobody has finished joining the child" % [m for m in makers if m != JS], None)
     ctx.guarded(JS, Call(r"std::panic::resume_unwind", transitive=True), call_false(r"std::thread::panicking"), "scope/no-double-panic",
                 "a child's panic is re-raised in the owner only when the owner is not already unwinding", pred_label="edge `thread::panicking()` is false")
     shared.join_rules(ctx)
@@ -132,3 +145,21 @@ def check(ctx):
         ctx.ob("R-PAIR", CS, "cqueue/scope-drops-cqueue", okn and oku, "cqueue::scope drops its Cqueue (cancel + drain) on the normal and on the unwind exit" if okn and oku else
                "cqueue::scope does not drop the Cqueue on %s exit" % ("the normal" if not okn else "the unwind"), f.where())
     witness.run_witness(ctx, "c14_scope", ctx.prog.extract_info["target"])
+    ctx.import_rules("C09", r"^cancel-state/")
+    # JoinState::join acts on the state it was called on: it takes the old value out of *self (swap/replace) and joins that handle
+    SWAP = Call(r"(std|core)::mem::(swap|replace|take)", transitive=False)
+    ctx.must_call(JS, SWAP, "scope/join-takes-own-state", "JoinState::join takes the current state out of *self (leaving Joined) before it looks at it")
+    ctx.order(JS, SWAP, Call(r"may::join::JoinHandle::join", transitive=False), "scope/join-joins-taken-handle", "the handle that is joined is the one taken out of the state")
+    # an explicit ScopedJoinHandle::join waits for the child before it takes the result
+    SJ = SC + "::ScopedJoinHandle::join"
+    WAIT = Call(re.escape(JS) + "|may::join::JoinHandle::join")
+    TAKE = Call(AO + "take", on=SC + "::ScopedJoinHandle.packet", transitive=False)
+    ctx.order(SJ, WAIT, TAKE, "scope/explicit-join-waits-then-takes", "ScopedJoinHandle::join takes the child's result only after the child was joined")
+    ctx.must_call(SJ, WAIT, "scope/explicit-join-waits", "ScopedJoinHandle::join always joins the child")
+    # the scoped child stores its result for the joiner
+    f = ctx.fn("R-PAIR", SI, "scope/child-stores-result")
+    if f is not None:
+        cls = [g for g in ctx.prog.closures_of(f) if ctx.an.may(g, Call(AO + "store", transitive=False))]
+        ok = len(cls) >= 1 and all(ctx.an.must(g, Call(AO + "store", transitive=False)) for g in cls)
+        ctx.ob("R-PAIR", SI, "scope/child-stores-result", ok, "the closure run by a scoped coroutine always stores f()'s value in the shared packet" if ok else
+               "the scoped child's closure does not (always) store its result: ScopedJoinHandle::join finds no packet", f.where())
